@@ -1082,6 +1082,27 @@ func (c *FnCtx) merge(sts []*State) *State {
 		}
 		out.vars[k] = c.mergeVals(vals, rests, k.Name())
 	}
+	// loop index variables (idxN in contracts) of loops that only some of the merged paths went through: kept, with an
+	// arbitrary value on the paths that did not run the loop, so that a clause after the join can still speak about them
+	for _, s0 := range sts {
+		for k, v := range s0.vars {
+			if _, done := out.vars[k]; done || v.S != SInt {
+				continue
+			}
+			if n := k.Name(); !(strings.HasPrefix(n, "iter_k_") || strings.HasPrefix(n, "range_i_") || strings.HasPrefix(n, "range_mi_")) {
+				continue
+			}
+			vals := make([]*Val, len(sts))
+			for i, s := range sts {
+				if v2, has := s.vars[k]; has {
+					vals[i] = v2
+				} else {
+					vals[i] = c.havocVal(nil, k.Type(), "noloop_"+k.Name())
+				}
+			}
+			out.vars[k] = c.mergeVals(vals, rests, k.Name())
+		}
+	}
 	hk := map[string]bool{}
 	for _, s := range sts {
 		for k := range s.heap {
